@@ -63,7 +63,7 @@ ir_merge = Contract(
         Clause("M5", "list(result['params'].keys()) == ['a', 'b'] and result['params'] == old_target['params']", when=["other-empty"]),
         Clause("M-frame-other", "other['params'] == old_other['params']", note="the other IR's parameters are not modified"),
     ],
-    canaries=["result['params']['b']['default'] == %s['default']" % _TB],
+    canaries=["result['params']['b']['doc'] == %s['doc']" % _TB],
 )
 ir_merge.allow_unordered = True
 
